@@ -44,7 +44,6 @@ func TestVerifC08MutKeys(t *testing.T) {
 	a.r.Bounds["xor_masks"] = c08MaskBound
 	a.r.Bounds["edits"] = "every position x every mask, every truncation, trailing 00/ff/self; protobuf: drop, duplicate, every transposition, value exchange, re-framed value truncation/extension, non-minimal varints, unknown fields; thorough: every single-byte deletion and insertion"
 	a.r.Bounds["private_keys"] = "all keys of ed25519/secp256k1/ecdsa; rsa: key #0 only in the quick tier"
-	sampled := map[string]bool{}
 	for _, k := range c08Keys(t, per) {
 		if a.stop {
 			break
@@ -59,7 +58,6 @@ func TestVerifC08MutKeys(t *testing.T) {
 			}
 			return sig0
 		}
-		tn := c08TypeName(k.Typ)
 
 		// ----- public key -----
 		pubOracle := func(form string, dec func([]byte) (crypto.PubKey, error)) func(m c08Mut) bool {
@@ -95,9 +93,8 @@ func TestVerifC08MutKeys(t *testing.T) {
 						}
 					}
 					a.r.Outcome("pub:" + m.Cat + ":" + cls)
-					if cls != "rejected" && !sampled["pub"+cls+tn] {
-						sampled["pub"+cls+tn] = true
-						a.r.Sample(map[string]any{"artefact": "public-key/" + form, "key": k.Name, "edit": m.Kind, "outcome": cls})
+					if cls == "different-key" {
+						a.sample(1, "pub"+cls, map[string]any{"artefact": "public-key/" + form, "key": k.Name, "edit": m.Kind, "input": c08Hex(m.Data), "outcome": cls + ": the signer's signature does not verify under it and its peer ID differs"})
 					}
 				})
 				return true
@@ -150,9 +147,8 @@ func TestVerifC08MutKeys(t *testing.T) {
 						}
 					}
 					a.r.Outcome("priv:" + m.Cat + ":" + cls)
-					if cls != "rejected" && !sampled["priv"+cls+tn] {
-						sampled["priv"+cls+tn] = true
-						a.r.Sample(map[string]any{"artefact": "private-key/" + form, "key": k.Name, "edit": m.Kind, "outcome": cls})
+					if cls != "rejected" {
+						a.sample(2, "priv"+cls, map[string]any{"artefact": "private-key/" + form, "key": k.Name, "edit": m.Kind, "outcome": cls})
 					}
 				})
 				return true
@@ -176,7 +172,6 @@ func TestVerifC08MutIDs(t *testing.T) {
 	a.r.Bounds["keys_per_type"] = per
 	a.r.Bounds["xor_masks"] = c08MaskBound
 	a.r.Bounds["forms"] = "binary (IDFromBytes), base58, CIDv1 base32 and base36 (Decode), JSON string; identity-multihash IDs over every protobuf-level edit of the marshalled key"
-	sampled := map[string]bool{}
 	for _, k := range c08Keys(t, per) {
 		if a.stop {
 			break
@@ -211,9 +206,8 @@ func TestVerifC08MutIDs(t *testing.T) {
 						}
 					}
 					a.r.Outcome(form + ":" + m.Cat + ":" + cls)
-					if cls != "rejected" && !sampled[form+cls] {
-						sampled[form+cls] = true
-						a.r.Sample(map[string]any{"artefact": "peer-id/" + form, "key": k.Name, "edit": m.Kind, "outcome": cls, "input": c08Trunc(fmt.Sprintf("%q", m.Data), 120)})
+					if cls != "rejected" && form != "binary" {
+						a.sample(1, "", map[string]any{"artefact": "peer-id/" + form, "key": k.Name, "edit": m.Kind, "outcome": cls, "input": c08Trunc(fmt.Sprintf("%q", m.Data), 120)})
 					}
 				})
 				return true
@@ -264,8 +258,8 @@ type c08Artefact struct {
 	payload []byte
 	wire    []byte
 	schema  c08Schema
-	typed   func() record.Record               // blank destination for ConsumeTypedEnvelope
-	same    func(got record.Record) bool       // decoded content == sealed content
+	typed   func() record.Record         // blank destination for ConsumeTypedEnvelope
+	same    func(got record.Record) bool // decoded content == sealed content
 }
 
 func c08SealArtefact(t testing.TB, ar *c08Artefact, rec record.Record) {
@@ -351,7 +345,6 @@ func TestVerifC08MutEnvelopes(t *testing.T) {
 	a.r.Bounds["consumers"] = "ConsumeEnvelope(sealed domain), ConsumeTypedEnvelope(record of the sealed type), ConsumeEnvelope(2 foreign domains)"
 	a.r.Bounds["edits"] = "envelope bytes: every position x every mask, every truncation, trailing 00/ff/self; protobuf edits of the envelope, of the public key inside it and of the peer record / voucher inside it (and of the address entries inside the peer record), enclosing lengths recomputed; thorough: byte deletions and insertions"
 	keys := c08Keys(t, per)
-	sampled := map[string]bool{}
 	for ki, k := range keys {
 		other := keys[(ki+1)%len(keys)]
 		for _, ar := range c08Artefacts(t, k, other) {
@@ -398,10 +391,7 @@ func TestVerifC08MutEnvelopes(t *testing.T) {
 						own = "foreign-domain"
 					}
 					a.r.Outcome(m.Cat + ":" + own + ":" + cls)
-					if cls == "accepted-identical-content" && !sampled[ar.name+m.Cat] {
-						sampled[ar.name+m.Cat] = true
-						a.r.Sample(map[string]any{"artefact": ar.name, "key": k.Name, "edit": m.Kind, "consumer": g.consumer, "outcome": "accepted, decodes to exactly the sealed signer / type / payload / record"})
-					}
+					a.sample(2, cls, map[string]any{"artefact": ar.name, "key": k.Name, "edit": m.Kind, "consumer": g.consumer, "ask_domain": g.domain, "input": c08Hex(m.Data), "outcome": cls})
 				}
 				return true
 			})
